@@ -51,7 +51,13 @@ def run(tier, seed, replay=None):
     cases = []
     for i in range(n_cases):
         size = "small" if i % 3 else "medium"
-        cases.append(("c%04d" % i, gen.gen_match_program(random.Random(rng.getrandbits(64)), size=size)))
+        crng = random.Random(rng.getrandbits(64))
+        prog = gen.gen_match_program(crng, size=size)
+        if i % 3 == 1:
+            gen.add_pos_table_first(crng, prog)      # tables written in another order than the passes run
+        if i % 4 == 2:
+            gen.add_pass_splits(crng, prog)          # a pass continued in an include file
+        cases.append(("c%04d" % i, prog))
     results = compile_cases(build, work, cases)
     accepted = [r for r in results if r["rc"] == 0 and os.path.exists(os.path.join(r["dir"], "out.ttf"))]
     rejected = [r for r in results if r not in accepted]
